@@ -145,15 +145,18 @@ pub fn simk_case(u: &mut Unstructured, forced: Option<c::Focus>) -> Result<(c::F
     }
     let ilen = if streams & 1 != 0 { size(u, caps[0])? } else { 0 };
     let string_variant = focus == c::Focus::C02 && reads.len() == 1 && reads[0].size.is_none() && u.ratio(1u8, 5u8)?;
+    let seed = u.int_in_range(0u32..=999)?;
+    let wait_before_drop = u.ratio(1u8, 2u8)? && focus == c::Focus::C01;
     Ok((
         focus,
         c::SimkCase {
             template: "fuzz".into(),
             sim: SimCfg { streams, caps, flavour, script, content, sched, sched_tail: tail, short_read: sr, short_write: sw, cost_ns: cost, eintr },
-            input: c::InputSpec { len: ilen, seed: u.int_in_range(0u32..=999)?, kind: content },
+            input: c::InputSpec { len: ilen, seed, kind: content },
             reads,
             string_variant,
             finite,
+            wait_before_drop,
         },
     ))
 }
